@@ -42,8 +42,10 @@ def val_text(v, box=lambda inner: "G1", comptime=False) -> str:
 def val_events(tagname: str, v) -> list:
     """Events `result(tagname, ..)` statements produce for a value (see print_stmts)."""
     tag = v[0]
-    if tag in ("int", "nat"):
+    if tag == "int":
         return [[tagname, "int", v[1]]]
+    if tag == "nat":
+        return [[tagname, "uint", v[1]]]
     if tag == "half":
         return [[tagname, "f64", v[1] / 2]]
     if tag == "bool":
@@ -158,7 +160,10 @@ class Render:
         sub = self.subst("foo")
         gen = self.rec["foo"]["generic"]
         names = {i: x[2] for i, x in enumerate(gen["inputs"])}  # slot order = input order
-        lines = []
+        # a substituted constant keeps its type: it is bound once, typed, at the top of the copy
+        # (a bare literal `7` in argument position could be read at another numeric type)
+        lines = [f"    {name} = {const_token(a[1])}" for name, a in sub.items() if a[0] == "C"]
+        sub = {}
         for i, s in enumerate(self.slots):
             if s[0] in ("K", "M"):
                 lines.append(f'    result("{names[i]}", {self.ref(names[i], sub)})')
